@@ -67,66 +67,76 @@ theorem newCapacity_gt (a : Arr) (h : a.capacity < Gen.CC_MAX_ELEMENTS) : a.capa
     · exact h
   · omega
 
-theorem expandCapacity_max (a : Arr) (m : Mem) (h : a.capacity = Gen.CC_MAX_ELEMENTS) :
-    a.expandCapacity m = (.errMaxCapacity, a, m) := by simp [expandCapacity, h]
+/-- `expand_capacity` refuses to grow: the capacity is `CC_MAX_ELEMENTS`, or the byte size of the
+requested buffer would wrap (A10) -/
+def AtLimit (a : Arr) : Prop :=
+  a.capacity = Gen.CC_MAX_ELEMENTS ∨ Gen.CC_MAX_ELEMENTS / 8 < a.newCapacity
 
-theorem expandCapacity_refused (a : Arr) (m : Mem) (h : a.capacity ≠ Gen.CC_MAX_ELEMENTS)
+instance (a : Arr) : Decidable a.AtLimit := by unfold AtLimit; infer_instance
+
+theorem max8_lt : Gen.CC_MAX_ELEMENTS / 8 < Gen.CC_MAX_ELEMENTS := by decide
+
+theorem expandCapacity_max (a : Arr) (m : Mem) (h : a.AtLimit) :
+    a.expandCapacity m = (.errMaxCapacity, a, m) := by
+  unfold expandCapacity
+  rcases h with h | h
+  · simp [h]
+  · have : a.newCapacity > Gen.CC_MAX_ELEMENTS / 8 := h
+    simp only [this, if_true]
+    split <;> rfl
+
+theorem expandCapacity_refused (a : Arr) (m : Mem) (h : ¬ a.AtLimit)
     (hr : m.alloc.1 = false) : a.expandCapacity m = (.errAlloc, a, m.alloc.2) := by
-  simp [expandCapacity, h, hr]
+  have h1 : ¬ a.capacity = Gen.CC_MAX_ELEMENTS := fun e => h (Or.inl e)
+  have h2 : ¬ a.newCapacity > Gen.CC_MAX_ELEMENTS / 8 := fun e => h (Or.inr e)
+  simp [expandCapacity, h1, h2, hr]
 
-theorem expandCapacity_success (a : Arr) (m : Mem) (h : a.capacity ≠ Gen.CC_MAX_ELEMENTS)
+theorem expandCapacity_success (a : Arr) (m : Mem) (h : ¬ a.AtLimit)
     (hr : m.alloc.1 = true) :
     a.expandCapacity m =
       (.ok, { a with buf := (Buf.mk a.newCapacity : Buf Nat).memcpy 0 a.buf 0 a.size, capacity := a.newCapacity },
        (m.alloc.2.check (decide (a.size ≤ a.buf.length) && decide (a.size ≤ a.newCapacity))).free) := by
-  simp [expandCapacity, h, hr]
+  have h1 : ¬ a.capacity = Gen.CC_MAX_ELEMENTS := fun e => h (Or.inl e)
+  have h2 : ¬ a.newCapacity > Gen.CC_MAX_ELEMENTS / 8 := fun e => h (Or.inr e)
+  simp [expandCapacity, h1, h2, hr]
 
 theorem expandCapacity_err (a : Arr) (m : Mem) (h : (a.expandCapacity m).1 ≠ .ok) :
     (a.expandCapacity m).2.1 = a ∧
     ((a.expandCapacity m).1 = .errMaxCapacity ∨ (a.expandCapacity m).1 = .errAlloc) ∧
     (a.expandCapacity m).2.2.live = m.live ∧ (a.expandCapacity m).2.2.fault = m.fault := by
-  by_cases hmax : a.capacity = Gen.CC_MAX_ELEMENTS
+  by_cases hmax : a.AtLimit
   · simp [expandCapacity_max a m hmax]
   · rcases alloc_cases m with ⟨h1, h2, h3⟩ | ⟨h1, h2, h3⟩
     · rw [expandCapacity_success a m hmax h1] at h; simp at h
     · simp [expandCapacity_refused a m hmax h1, h2, h3]
 
-/-- a successful expansion: content and size unchanged, capacity strictly larger (C20), the new
-block has exactly the new capacity, ledger balanced (one block acquired, one released) -/
+/-- a successful expansion: content and size unchanged, capacity strictly larger (C20) and still
+within the byte-size limit (A10), the new block has exactly the new capacity, ledger balanced (one
+block acquired, one released) -/
 theorem expandCapacity_ok (a : Arr) (m : Mem) (hinv : a.Inv) (hlive : 0 < m.live)
     (h : (a.expandCapacity m).1 = .ok) :
     (a.expandCapacity m).2.1.abs = a.abs ∧ (a.expandCapacity m).2.1.size = a.size ∧
     (a.expandCapacity m).2.1.grow = a.grow ∧ (a.expandCapacity m).2.1.capacity = a.newCapacity ∧
     (a.expandCapacity m).2.1.buf.length = a.newCapacity ∧ a.capacity < a.newCapacity ∧
-    a.capacity ≠ Gen.CC_MAX_ELEMENTS ∧ m.alloc.1 = true ∧
+    a.newCapacity ≤ Gen.CC_MAX_ELEMENTS / 8 ∧ m.alloc.1 = true ∧
     (a.expandCapacity m).2.2.live = m.live ∧ (a.expandCapacity m).2.2.fault = m.fault := by
   obtain ⟨h1, h2, h3, h4⟩ := hinv
-  by_cases hmax : a.capacity = Gen.CC_MAX_ELEMENTS
+  by_cases hmax : a.AtLimit
   · simp [expandCapacity_max a m hmax] at h
   · rcases alloc_cases m with ⟨g1, g2, g3⟩ | ⟨g1, g2, g3⟩
-    · have hgt := newCapacity_gt a (by omega)
+    · have hgt := newCapacity_gt a (by have := max8_lt; omega)
+      have hle : a.newCapacity ≤ Gen.CC_MAX_ELEMENTS / 8 := Nat.le_of_not_lt (fun e => hmax (Or.inr e))
       have hc : (decide (a.size ≤ a.buf.length) && decide (a.size ≤ a.newCapacity)) = true := by
         simp; omega
       rw [expandCapacity_success a m hmax g1, hc]
       have hf := free_live m.alloc.2 (by omega)
-      refine ⟨?_, rfl, rfl, rfl, by simp, hgt, hmax, g1, by simp [hf.1, g2], by simp [hf.2, g3]⟩
+      refine ⟨?_, rfl, rfl, rfl, by simp, hgt, hle, g1, by simp [hf.1, g2], by simp [hf.2, g3]⟩
       refine abs_congr _ a rfl ?_
       intro i hi
       simp only at hi ⊢
       rw [Buf.get_memcpy _ _ _ _ _ _ (by simp; omega)]
       simp [hi]
     · simp [expandCapacity_refused a m hmax g1] at h
-
-theorem newCapacity_le (a : Arr) (h : a.capacity ≤ Gen.CC_MAX_ELEMENTS)
-    (hg : a.grow a.capacity ≤ Gen.CC_MAX_ELEMENTS) : a.newCapacity ≤ Gen.CC_MAX_ELEMENTS := by
-  unfold newCapacity
-  simp only
-  split
-  · split
-    · have : Gen.CC_MAX_ELEMENTS / 2 ≤ Gen.CC_MAX_ELEMENTS := Nat.div_le_self _ _
-      omega
-    · exact Nat.le_refl _
-  · exact hg
 
 /-! ### add -/
 
@@ -165,25 +175,25 @@ theorem add_full (a : Arr) (x : Nat) (m : Mem) (h : a.capacity ≤ a.size) :
 /-- what a successful growing call (`add`, `add_at`, `iter_add`) guarantees about the physical
 state besides the content: one more element, the slots fit, the block fits, the capacity is kept
 or — only when the array was exactly full — replaced by the strictly larger `newCapacity`
-(C20), and the configuration is kept -/
+(C20) whose byte size does not wrap (A10), and the configuration is kept -/
 def GrowFrame (a a' : Arr) (m : Mem) : Prop :=
   a'.size = a.size + 1 ∧ a'.size ≤ a'.capacity ∧ a'.capacity ≤ a'.buf.length ∧
   (a'.capacity = a.capacity ∨
-    (a.size = a.capacity ∧ a'.capacity = a.newCapacity ∧ a.capacity < a.newCapacity ∧ m.alloc.1 = true)) ∧
+    (a.size = a.capacity ∧ a'.capacity = a.newCapacity ∧ a.capacity < a.newCapacity ∧ m.alloc.1 = true ∧
+      a.newCapacity ≤ Gen.CC_MAX_ELEMENTS / 8)) ∧
   a'.grow = a.grow
 
 /-- a growing call can only be blocked on an exactly full array, by a refusing allocator
-(`CC_ERR_ALLOC`) or at the capacity limit (`CC_ERR_MAX_CAPACITY`) -/
+(`CC_ERR_ALLOC`) or at the capacity limit (`CC_ERR_MAX_CAPACITY`, `AtLimit`) -/
 def Blocked (st : Stat) (a : Arr) (m : Mem) : Prop :=
-  (st = .errAlloc ∧ m.alloc.1 = false ∨ st = .errMaxCapacity ∧ a.capacity = Gen.CC_MAX_ELEMENTS) ∧
+  (st = .errAlloc ∧ m.alloc.1 = false ∨ st = .errMaxCapacity ∧ a.AtLimit) ∧
   a.size = a.capacity
 
-theorem GrowFrame.inv {a a' : Arr} {m : Mem} (h : a.Inv) (g : GrowFrame a a' m)
-    (hg : a.grow a.capacity ≤ Gen.CC_MAX_ELEMENTS) : a'.Inv := by
+/-- the invariant survives every successful growing call, for every growth function -/
+theorem GrowFrame.inv {a a' : Arr} {m : Mem} (h : a.Inv) (g : GrowFrame a a' m) : a'.Inv := by
   obtain ⟨h1, h2, h3, h4⟩ := h
   obtain ⟨g1, g2, g3, g4, g5⟩ := g
-  have := newCapacity_le a h4 hg
-  refine ⟨g2, g3, ?_, ?_⟩ <;> rcases g4 with g4 | ⟨_, g4, g6, _⟩ <;> omega
+  refine ⟨g2, g3, ?_, ?_⟩ <;> rcases g4 with g4 | ⟨_, g4, g6, _, g7⟩ <;> omega
 
 theorem GrowFrame.capacity_le {a a' : Arr} {m : Mem} (g : GrowFrame a a' m) : a.capacity ≤ a'.capacity := by
   obtain ⟨g1, g2, g3, g4, g5⟩ := g
@@ -215,12 +225,12 @@ theorem add_spec (a : Arr) (x : Nat) (m : Mem) (hinv : a.Inv) (hlive : 0 < m.liv
         by rw [store_eq _ x _ hl]; exact e9, by rw [store_eq _ x _ hl]; exact e10⟩
       rw [store_eq _ x _ hl]
       simp only [GrowFrame, Buf.length_put]
-      refine ⟨by omega, by omega, by omega, Or.inr ⟨by omega, e4, e6, e8⟩, e3⟩
+      refine ⟨by omega, by omega, by omega, Or.inr ⟨by omega, e4, e6, e8, e7⟩, e3⟩
     · obtain ⟨e1, e2, e3, e4⟩ := expandCapacity_err a m hok
       have hne : ((a.expandCapacity m).1 != .ok) = true := by simpa using hok
       simp only [hne, if_true]
       refine ⟨Or.inr ⟨⟨?_, by omega⟩, e1⟩, e3, e4⟩
-      by_cases hmax : a.capacity = Gen.CC_MAX_ELEMENTS
+      by_cases hmax : a.AtLimit
       · right; exact ⟨by rw [expandCapacity_max a m hmax], hmax⟩
       · left
         rcases alloc_cases m with ⟨g1, _, _⟩ | ⟨g1, _, _⟩
@@ -332,12 +342,12 @@ theorem addAt_spec (a : Arr) (x i : Nat) (m : Mem) (hinv : a.Inv) (hlive : 0 < m
             by rw [insertShift_eq _ x i _ hl hi']; exact e9, by rw [insertShift_eq _ x i _ hl hi']; exact e10⟩
           rw [insertShift_eq _ x i _ hl hi']
           simp only [GrowFrame, Buf.length_put, Buf.length_memmove]
-          refine ⟨by omega, by omega, by omega, Or.inr ⟨by omega, e4, e6, e8⟩, e3⟩
+          refine ⟨by omega, by omega, by omega, Or.inr ⟨by omega, e4, e6, e8, e7⟩, e3⟩
         · obtain ⟨e1, e2, e3, e4⟩ := expandCapacity_err a m hok
           have hne : ((a.expandCapacity m).1 != .ok) = true := by simpa using hok
           simp only [hne, if_true]
           refine ⟨Or.inl ⟨by omega, Or.inr ⟨⟨?_, by omega⟩, e1⟩⟩, e3, e4⟩
-          by_cases hmax : a.capacity = Gen.CC_MAX_ELEMENTS
+          by_cases hmax : a.AtLimit
           · right; exact ⟨by rw [expandCapacity_max a m hmax], hmax⟩
           · left
             rcases alloc_cases m with ⟨g1, _, _⟩ | ⟨g1, _, _⟩
